@@ -1,1 +1,392 @@
-/-! C36 — property theorems (stub: nothing proved yet). -/
+import B6.Model.Validator
+import B6.Lemmas.Validator
+/-!
+# C36 — Builds give the same world for any degree of parallelism
+
+The builders are modelled as folds over an *arrival order* (`B6.Model.Validator`): every locked call of
+`compact.Validator`, every `AddFeature` of the in-memory builder and every `Reserve` / `WriteItem` of a
+`Uint64Map` is one step, and a parallel build with any number of goroutines is some interleaving, i.e.
+some permutation of the same arrivals.  The theorems quantify over **all** arrival lists and **all**
+permutations of them (no bound on length or on the number of goroutines):
+
+* `validator_emits_spec` — what the validator hands to `emitFeature` is, as a multiset, exactly the valid
+  paths plus the areas all of whose paths are present and valid;
+* `validator_perm` — hence the same multiset for any two arrival orders (which is also what makes the
+  reserve pass and the write pass of `writePathsAreasAndRelations` agree);
+* `basic_perm` — the in-memory builder's id map does not depend on the order;
+* `map_perm`, `map_fill_perm`, `map_reserve_perm` — a `Uint64Map` written in two different orders answers
+  `FindFirstWithTag` identically, `FillTagged` up to entry order, and the bytes reserved per bucket in one
+  order are the bytes written per bucket in the other;
+* `build_perm` — lookups in the model of the built compact blocks and of the in-memory map are the same
+  for any two arrival orders.
+
+Hypothesis throughout: ids are distinct within a source (a source with two features of the same id is
+last-writer-wins in both builders, so its result does depend on the schedule; generated sources and OSM
+extracts have distinct ids).  Not modelled: the Go scheduler and memory model (C35), string-table ids
+(different tables decode to the same strings; tied by the observation dumps), S2.
+-/
+namespace B6.Props.C36
+open B6.Model.Validator B6.Lemmas.Validator
+
+/-! ## the validator -/
+
+/-- the emitted multiset is: valid paths ∪ areas all of whose paths are valid and present -/
+theorem validator_emits_spec (arr : List Arrival) (hnd : (pathIds arr).Nodup) : (run arr).Perm (spec arr) :=
+  run_perm_spec arr hnd
+
+theorem pathIds_eq_filterMap (arr : List Arrival) :
+    pathIds arr = arr.filterMap (fun a => match a with | .path id _ => some id | .area _ _ => none) := by
+  induction arr with
+  | nil => rfl
+  | cons a t ih => cases a <;> simp [pathIds, ih]
+
+theorem areasOf_eq_filterMap (arr : List Arrival) :
+    areasOf arr = arr.filterMap (fun a => match a with | .path _ _ => none | .area a ps => some (a, ps)) := by
+  induction arr with
+  | nil => rfl
+  | cons a t ih => cases a <;> simp [areasOf, ih]
+
+theorem emittedPaths_eq_filterMap (arr : List Arrival) :
+    emittedPaths arr = arr.filterMap (fun a => match a with
+      | .path id v => if v = .invalid then none else some (Out.path id) | .area _ _ => none) := by
+  induction arr with
+  | nil => rfl
+  | cons a t ih =>
+    cases a with
+    | path id v => by_cases h : v = .invalid <;> simp [emittedPaths, h, ih]
+    | area a ps => simp [emittedPaths, ih]
+
+theorem mem_of_verdict (arr : List Arrival) (k : Nat) (v : PV) (h : verdict arr k = some v) :
+    Arrival.path k v ∈ arr := by
+  induction arr with
+  | nil => simp [verdict] at h
+  | cons a t ih =>
+    cases a with
+    | path id w =>
+      by_cases hid : id = k
+      · simp [verdict, hid] at h; subst hid; subst h; simp
+      · simp [verdict, hid] at h; exact List.mem_cons_of_mem _ (ih h)
+    | area a ps => simp [verdict] at h; exact List.mem_cons_of_mem _ (ih h)
+
+theorem mem_pathIds (arr : List Arrival) (k : Nat) (v : PV) (h : Arrival.path k v ∈ arr) : k ∈ pathIds arr := by
+  induction arr with
+  | nil => simp at h
+  | cons a t ih =>
+    cases a with
+    | path id w =>
+      simp only [List.mem_cons, Arrival.path.injEq] at h
+      cases h with
+      | inl h => simp [pathIds, h.1]
+      | inr h => simp [pathIds, ih h]
+    | area a ps =>
+      simp only [List.mem_cons, reduceCtorEq, false_or] at h
+      simpa [pathIds] using ih h
+
+theorem verdict_of_mem (arr : List Arrival) (hnd : (pathIds arr).Nodup) (k : Nat) (v : PV)
+    (h : Arrival.path k v ∈ arr) : verdict arr k = some v := by
+  induction arr with
+  | nil => simp at h
+  | cons a t ih =>
+    cases a with
+    | path id w =>
+      simp only [pathIds, List.nodup_cons] at hnd
+      simp only [List.mem_cons, Arrival.path.injEq] at h
+      cases h with
+      | inl h => simp [verdict, h.1, h.2]
+      | inr h =>
+        have hk : k ∈ pathIds t := mem_pathIds t k v h
+        have : ¬ id = k := fun e => hnd.1 (e ▸ hk)
+        simp [verdict, this, ih hnd.2 h]
+    | area a ps =>
+      simp only [List.mem_cons, reduceCtorEq, false_or] at h
+      simpa [verdict] using ih (by simpa [pathIds] using hnd) h
+
+theorem verdict_perm (arr arr' : List Arrival) (hp : arr.Perm arr') (hnd : (pathIds arr).Nodup) :
+    verdict arr = verdict arr' := by
+  have hnd' : (pathIds arr').Nodup := by
+    have : (pathIds arr).Perm (pathIds arr') := by
+      rw [pathIds_eq_filterMap, pathIds_eq_filterMap]; exact hp.filterMap _
+    exact this.nodup_iff.mp hnd
+  funext k
+  cases h : verdict arr k with
+  | some v => exact (verdict_of_mem arr' hnd' k v (hp.mem_iff.mp (mem_of_verdict arr k v h))).symm
+  | none =>
+    cases h' : verdict arr' k with
+    | none => rfl
+    | some v =>
+      have := verdict_of_mem arr hnd k v (hp.mem_iff.mpr (mem_of_verdict arr' k v h'))
+      rw [h] at this; exact absurd this (by simp)
+
+theorem spec_perm (arr arr' : List Arrival) (hp : arr.Perm arr') (hnd : (pathIds arr).Nodup) :
+    (spec arr).Perm (spec arr') := by
+  unfold spec
+  rw [← verdict_perm arr arr' hp hnd]
+  apply List.Perm.append
+  · rw [emittedPaths_eq_filterMap, emittedPaths_eq_filterMap]; exact hp.filterMap _
+  · apply List.Perm.map
+    apply List.Perm.filter
+    rw [areasOf_eq_filterMap, areasOf_eq_filterMap]; exact hp.filterMap _
+
+/-- **order independence of the validator**: any two arrival orders of the same paths and areas make it
+emit the same multiset of features. -/
+theorem validator_perm (arr arr' : List Arrival) (hp : arr.Perm arr') (hnd : (pathIds arr).Nodup) :
+    (run arr).Perm (run arr') := by
+  have hnd' : (pathIds arr').Nodup := by
+    have : (pathIds arr).Perm (pathIds arr') := by
+      rw [pathIds_eq_filterMap, pathIds_eq_filterMap]; exact hp.filterMap _
+    exact this.nodup_iff.mp hnd
+  exact (run_perm_spec arr hnd).trans ((spec_perm arr arr' hp hnd).trans (run_perm_spec arr' hnd').symm)
+
+/-- non-vacuity: an area arriving before its two paths is queued and emitted when the second path arrives;
+an area over an invalid path is dropped; the reverse order emits the same set. -/
+example :
+    run [.area 7 [1, 2], .area 8 [3], .path 1 .valid, .path 3 .invalid, .path 2 .valid]
+      = [.path 1, .path 2, .area 7 [1, 2]] ∧
+    run [.path 2 .valid, .path 3 .invalid, .path 1 .valid, .area 8 [3], .area 7 [1, 2]]
+      = [.path 2, .path 1, .area 7 [1, 2]] := by decide
+
+/-- the validator does depend on the order when two paths share an id (outside the hypothesis) -/
+theorem validator_duplicate_ids_counterexample :
+    ¬ (run [.path 1 .valid, .area 7 [1], .path 1 .invalid]).Perm
+        (run [.path 1 .invalid, .area 7 [1], .path 1 .valid]) := by decide
+
+/-! ## the in-memory builder -/
+
+theorem foldr_setF_some_iff {α} (key : α → Nat) (l : List α) (hnd : (l.map key).Nodup) (k : Nat) (f : α) :
+    (l.foldr (fun f m => setF m (key f) f) (fun _ => none)) k = some f ↔ f ∈ l ∧ key f = k := by
+  induction l with
+  | nil => simp
+  | cons a t ih =>
+    simp only [List.map_cons, List.nodup_cons] at hnd
+    simp only [List.foldr_cons, setF]
+    by_cases hk : k = key a
+    · simp only [hk, ite_true, Option.some.injEq, List.mem_cons]
+      constructor
+      · intro h; exact ⟨Or.inl h.symm, by rw [← h]⟩
+      · intro ⟨hm, hkey⟩
+        cases hm with
+        | inl h => exact h.symm
+        | inr h => exact absurd (List.mem_map.mpr ⟨f, h, hkey⟩) hnd.1
+    · simp only [hk, ite_false, List.mem_cons]
+      rw [ih hnd.2]
+      constructor
+      · intro ⟨hm, hkey⟩; exact ⟨Or.inr hm, hkey⟩
+      · intro ⟨hm, hkey⟩
+        cases hm with
+        | inl h => exact absurd (by rw [← hkey, h]) hk
+        | inr h => exact ⟨h, hkey⟩
+
+theorem basicAdd_some_iff {α} (key : α → Nat) (arr : List α) (hnd : (arr.map key).Nodup) (k : Nat) (f : α) :
+    basicAdd key arr k = some f ↔ f ∈ arr ∧ key f = k := by
+  have h := foldr_setF_some_iff key arr.reverse (by rw [List.map_reverse]; exact (List.reverse_perm _).nodup_iff.mpr hnd) k f
+  unfold basicAdd
+  rw [List.foldr_reverse] at h
+  simpa using h
+
+/-- **order independence of the in-memory builder**: `AddFeature` in any order gives the same id map. -/
+theorem basic_perm {α} (key : α → Nat) (arr arr' : List α) (hp : arr.Perm arr') (hnd : (arr.map key).Nodup) (k : Nat) :
+    basicAdd key arr k = basicAdd key arr' k := by
+  have hnd' : (arr'.map key).Nodup := (hp.map key).nodup_iff.mp hnd
+  cases h : basicAdd key arr k with
+  | some f =>
+    have := (basicAdd_some_iff key arr hnd k f).mp h
+    exact ((basicAdd_some_iff key arr' hnd' k f).mpr ⟨hp.mem_iff.mp this.1, this.2⟩).symm
+  | none =>
+    cases h' : basicAdd key arr' k with
+    | none => rfl
+    | some f =>
+      have := (basicAdd_some_iff key arr' hnd' k f).mp h'
+      have := (basicAdd_some_iff key arr hnd k f).mpr ⟨hp.mem_iff.mpr this.1, this.2⟩
+      rw [h] at this; exact absurd this (by simp)
+
+example : basicAdd (fun (p : Nat × String) => p.1) [(1, "a"), (2, "b")] 2 = some (2, "b") := by decide
+
+/-- with a repeated id the last arrival wins, so the order shows (outside the hypothesis) -/
+theorem basic_duplicate_ids_counterexample :
+    basicAdd (fun (p : Nat × String) => p.1) [(1, "a"), (1, "b")] 1 ≠
+      basicAdd (fun (p : Nat × String) => p.1) [(1, "b"), (1, "a")] 1 := by decide
+
+/-! ## `Uint64Map`: reserve pass and write pass -/
+
+theorem foldl_writeItem (nb : Nat) (es : List Entry) : ∀ (b0 : Buckets) (i : Nat),
+    (es.foldl (writeItem nb) b0) i = b0 i ++ es.filter (fun e => e.id % nb = i) := by
+  induction es with
+  | nil => intro b0 i; simp
+  | cons e t ih =>
+    intro b0 i
+    rw [List.foldl_cons, ih]
+    unfold writeItem
+    by_cases h : i = e.id % nb
+    · subst h; simp
+    · have : ¬ e.id % nb = i := fun x => h x.symm
+      simp [h, this]
+
+/-- a bucket holds, in arrival order, exactly the entries whose id falls into it -/
+theorem writeAll_bucket (nb : Nat) (es : List Entry) (i : Nat) :
+    writeAll nb es i = es.filter (fun e => e.id % nb = i) := by
+  unfold writeAll; rw [foldl_writeItem]; simp
+
+theorem foldl_reserveItem (nb : Nat) (hdr : Entry → Nat) (es : List Entry) : ∀ (r0 : Nat → Nat) (i : Nat),
+    (es.foldl (reserveItem nb hdr) r0) i = r0 i + bucketBytes hdr (es.filter (fun e => e.id % nb = i)) := by
+  induction es with
+  | nil => intro r0 i; simp [bucketBytes]
+  | cons e t ih =>
+    intro r0 i
+    rw [List.foldl_cons, ih]
+    unfold reserveItem
+    by_cases h : i = e.id % nb
+    · subst h; simp [bucketBytes]; omega
+    · have : ¬ e.id % nb = i := fun x => h x.symm
+      simp [h, this]
+
+theorem bucketBytes_perm (hdr : Entry → Nat) (l l' : List Entry) (hp : l.Perm l') : bucketBytes hdr l = bucketBytes hdr l' := by
+  induction hp with
+  | nil => rfl
+  | cons x _ ih => simp only [bucketBytes, List.map_cons, List.sum_cons] at *; omega
+  | swap x y l => simp only [bucketBytes, List.map_cons, List.sum_cons]; omega
+  | trans _ _ ih1 ih2 => exact ih1.trans ih2
+
+/-- one entry per (id, tag): what the builders emit into a block (a point record, a path, an area …) -/
+def UniqueKeys (es : List Entry) : Prop := ∀ x ∈ es, ∀ y ∈ es, x.id = y.id → x.tag = y.tag → x = y
+
+theorem find?_perm_unique {α} (p : α → Bool) (l l' : List α) (hp : l.Perm l')
+    (hu : ∀ x ∈ l, ∀ y ∈ l, p x = true → p y = true → x = y) : l.find? p = l'.find? p := by
+  cases h : l.find? p with
+  | some e =>
+    have he : e ∈ l := List.mem_of_find?_eq_some h
+    have hpe : p e = true := List.find?_some h
+    cases h' : l'.find? p with
+    | none =>
+      have := List.find?_eq_none.mp h' e (hp.mem_iff.mp he)
+      exact absurd hpe this
+    | some e' =>
+      have he' : e' ∈ l := hp.mem_iff.mpr (List.mem_of_find?_eq_some h')
+      rw [hu e he e' he' hpe (List.find?_some h')]
+  | none =>
+    cases h' : l'.find? p with
+    | none => rfl
+    | some e' =>
+      have := List.find?_eq_none.mp h e' (hp.mem_iff.mpr (List.mem_of_find?_eq_some h'))
+      exact absurd (List.find?_some h') this
+
+/-- **lookups do not depend on the write order.** -/
+theorem map_perm (nb : Nat) (es es' : List Entry) (hp : es.Perm es') (hu : UniqueKeys es) (id tag : Nat) :
+    findFirstWithTag nb (writeAll nb es) id tag = findFirstWithTag nb (writeAll nb es') id tag := by
+  unfold findFirstWithTag
+  rw [writeAll_bucket, writeAll_bucket]
+  congr 1
+  apply find?_perm_unique _ _ _ (hp.filter _)
+  intro x hx y hy hpx hpy
+  have hx' := (List.mem_filter.mp hx).1
+  have hy' := (List.mem_filter.mp hy).1
+  simp only [decide_eq_true_eq] at hpx hpy
+  exact hu x hx' y hy' (by rw [hpx.1, hpy.1]) (by rw [hpx.2, hpy.2])
+
+/-- all entries under one id are the same up to their order (the order is the C09 exception) -/
+theorem map_fill_perm (nb : Nat) (es es' : List Entry) (hp : es.Perm es') (id : Nat) :
+    (fillTagged nb (writeAll nb es) id).Perm (fillTagged nb (writeAll nb es') id) := by
+  unfold fillTagged
+  rw [writeAll_bucket, writeAll_bucket]
+  exact (hp.filter _).filter _
+
+/-- the bytes the reserve pass sets aside in a bucket (one arrival order) are the bytes the write pass puts
+there (another arrival order) — no write beyond the reserved space, no gap. -/
+theorem map_reserve_perm (nb : Nat) (hdr : Entry → Nat) (es es' : List Entry) (hp : es.Perm es') (i : Nat) :
+    reserveAll nb hdr es i = bucketBytes hdr (writeAll nb es' i) := by
+  unfold reserveAll
+  rw [foldl_reserveItem, writeAll_bucket]
+  simp only [Nat.zero_add]
+  exact bucketBytes_perm hdr _ _ (hp.filter _)
+
+example : findFirstWithTag 2 (writeAll 2 [⟨5, 0, [1]⟩, ⟨7, 1, [2]⟩, ⟨7, 0, [3]⟩]) 7 0 = some [3] := by decide
+
+/-- two entries with the same id and tag are told apart by their order (outside the hypothesis) -/
+theorem map_duplicate_key_counterexample :
+    findFirstWithTag 2 (writeAll 2 [⟨7, 0, [1]⟩, ⟨7, 0, [2]⟩]) 7 0 ≠
+      findFirstWithTag 2 (writeAll 2 [⟨7, 0, [2]⟩, ⟨7, 0, [1]⟩]) 7 0 := by decide
+
+/-! ## the built worlds -/
+
+/-- block and id of an emitted feature (paths and areas live in separate blocks) -/
+def outKey : Out → Nat × Nat
+  | .path id => (0, id)
+  | .area a _ => (1, a)
+
+/-- `FindFeatureByID` on the path / area blocks written from what the validator emitted -/
+def compactLookup (arr : List Arrival) (k : Nat × Nat) : Option Out := (run arr).find? fun o => outKey o = k
+
+def areaIds (arr : List Arrival) : List Nat := (areasOf arr).map (·.1)
+
+theorem mem_spec_area (arr : List Arrival) (a : Nat) (ps : List Nat) (h : Out.area a ps ∈ spec arr) :
+    (a, ps) ∈ areasOf arr := by
+  unfold spec at h
+  rw [List.mem_append] at h
+  cases h with
+  | inl h =>
+    exfalso
+    rw [emittedPaths_eq_filterMap, List.mem_filterMap] at h
+    obtain ⟨x, _, hx⟩ := h
+    cases x with
+    | path id v => by_cases hv : v = .invalid <;> simp [hv] at hx
+    | area _ _ => simp at hx
+  | inr h =>
+    rw [List.mem_map] at h
+    obtain ⟨b, hb, hbe⟩ := h
+    have := (List.mem_filter.mp hb).1
+    simp only [Out.area.injEq] at hbe
+    obtain ⟨b1, b2⟩ := b
+    simp only at hbe
+    rw [← hbe.1, ← hbe.2]; exact this
+
+theorem pair_unique {β} (l : List (Nat × β)) (hnd : (l.map (·.1)).Nodup) (a : Nat) (x y : β)
+    (hx : (a, x) ∈ l) (hy : (a, y) ∈ l) : x = y := by
+  induction l with
+  | nil => simp at hx
+  | cons c t ih =>
+    simp only [List.map_cons, List.nodup_cons] at hnd
+    simp only [List.mem_cons] at hx hy
+    cases hx with
+    | inl hx =>
+      cases hy with
+      | inl hy => exact (Prod.mk.inj (hx.trans hy.symm)).2
+      | inr hy => exact absurd (List.mem_map.mpr ⟨(a, y), hy, by rw [← hx]⟩) hnd.1
+    | inr hx =>
+      cases hy with
+      | inl hy => exact absurd (List.mem_map.mpr ⟨(a, x), hx, by rw [← hy]⟩) hnd.1
+      | inr hy => exact ih hnd.2 hx hy
+
+/-- **observations of the built model worlds do not depend on the arrival order**: looking up any path or
+area id in the compact blocks, and any id in the in-memory map, gives the same answer for any two
+interleavings of the same source. -/
+theorem build_perm (arr arr' : List Arrival) (hp : arr.Perm arr')
+    (hnd : (pathIds arr).Nodup) (hna : (areaIds arr).Nodup) :
+    (∀ k, compactLookup arr k = compactLookup arr' k) ∧
+    (∀ {α} (key : α → Nat) (fs fs' : List α), fs.Perm fs' → (fs.map key).Nodup →
+        ∀ k, basicAdd key fs k = basicAdd key fs' k) := by
+  refine ⟨?_, fun key fs fs' h1 h2 k => basic_perm key fs fs' h1 h2 k⟩
+  intro k
+  unfold compactLookup
+  apply find?_perm_unique _ _ _ (validator_perm arr arr' hp hnd)
+  intro x hx y hy hpx hpy
+  have hx' := (run_perm_spec arr hnd).mem_iff.mp hx
+  have hy' := (run_perm_spec arr hnd).mem_iff.mp hy
+  simp only [decide_eq_true_eq] at hpx hpy
+  have hk : outKey x = outKey y := by rw [hpx, hpy]
+  cases x with
+  | path i =>
+    cases y with
+    | path j => simp only [outKey, Prod.mk.injEq, true_and] at hk; rw [hk]
+    | area b qs => simp [outKey] at hk
+  | area a ps =>
+    cases y with
+    | path j => simp [outKey] at hk
+    | area b qs =>
+      simp only [outKey, Prod.mk.injEq, true_and] at hk
+      subst hk
+      have := pair_unique (areasOf arr) hna a ps qs (mem_spec_area arr a ps hx') (mem_spec_area arr a qs hy')
+      rw [this]
+
+example : compactLookup [.area 7 [1, 2], .path 1 .valid, .path 2 .valid] (1, 7) = some (.area 7 [1, 2]) ∧
+    compactLookup [.path 2 .valid, .area 7 [1, 2], .path 1 .validNotLoop] (1, 7) = none := by decide
+
+end B6.Props.C36
